@@ -45,6 +45,15 @@ fn is_frozen_collection_named_generic(ty: &IrType) -> bool {
 }
 
 impl<'a> IrEmitter<'a> {
+    /// A method call binds tighter than any operator: when a builtin is emitted as `<arg>.method()` and the argument is
+    /// an operator expression, the argument has to be grouped (`abs(a - b)` is `(a - b).abs()`, not `a - b.abs()`).
+    fn group_operator_receiver(arg: &TypedExpr, tokens: TokenStream) -> TokenStream {
+        match &arg.kind {
+            IrExprKind::BinOp { .. } | IrExprKind::UnaryOp { .. } => quote! { (#tokens) },
+            _ => tokens,
+        }
+    }
+
     /// Emit a builtin function call using enum-based dispatch.
     ///
     /// This handles calls that have been lowered to `IrExprKind::BuiltinCall`.
@@ -196,7 +205,7 @@ impl<'a> IrEmitter<'a> {
             }
             BuiltinFn::Abs => {
                 if let Some(arg) = args.first() {
-                    let a = self.emit_expr(arg)?;
+                    let a = Self::group_operator_receiver(arg, self.emit_expr(arg)?);
                     Ok(quote! { #a.abs() })
                 } else {
                     Ok(quote! { 0 })
@@ -447,7 +456,7 @@ impl<'a> IrEmitter<'a> {
             }
             BuiltinFnId::Abs => {
                 if let Some(arg) = args.first() {
-                    let a = self.emit_expr(arg)?;
+                    let a = Self::group_operator_receiver(arg, self.emit_expr(arg)?);
                     Ok(Some(quote! { #a.abs() }))
                 } else {
                     Ok(None)
